@@ -54,6 +54,7 @@ PROPS = {
     },
     "C09": {
         "verus": ["auditor"],
+        "kani": ["c05"],
         "search": True,
         "bounded_search": [{"obligation": "auditor/ensure_prefix_free#completeness",
                             "bound": "cross-check only (the soundness direction is PROVED in Verus): all sets of <= 3 labels of <= 3 bits (thorough: 4), with and without stray bits; accepted <==> pairwise prefix-free"}],
@@ -66,6 +67,25 @@ PROPS = {
                     "collision resistance for 'replacing any root hash makes verification fail'",
                     "assumed std contracts: <[T]>::sort_unstable_by returns a rearrangement ordered by the comparator; <[u8; 32] as Ord>::cmp is byte-wise lexicographic (cross-checked by Kani c17_cmp_contract); Ordering::then"],
         "assumed": ["attacker-supplied epochs are < u64::MAX and the epoch list is shorter than usize::MAX (overflow guards)"],
+    },
+    "C10": {
+        "verus": ["directory_publish"],
+        "search": True,
+        "always_search": True,
+        "bounded_search": [{"obligation": "replay/c10#single_fault_enumeration",
+                            "bound": "one fixed two-epoch history ([(a,a1),(b,b1)] then [(a,a2),(c,c1)]); the second publish repeated once per database operation it performs with exactly that "
+                                     "operation failing; with and without the object cache; both hashing configurations; in-memory database"}],
+        "scope": "partial. Deductive part (the transactional tail of Directory::publish, from the no-change early return to the end, verified as two segments of the real text): an epoch other than the "
+                 "current one is announced only if commit_transaction returned Ok, and then it is current+1; every error exit taken after begin_transaction is preceded by rollback_transaction "
+                 "(failed insertion, failed root-hash computation, failed commit); once the commit has been accepted nothing that can fail is left - the call returns Ok(next epoch). "
+                 "BOUNDED part (never counted as proved): single-fault enumeration on the real code - after a publish that returned an error the same directory instance reports the previous "
+                 "epoch and root hash, still serves a verifying proof of the previous value, holds no open transaction, and a retried publish ends in the fault-free state. "
+                 "Not decided: the statements of publish before the segment (duplicate check, label derivation, building the update sets - they perform reads only), the cache's and the "
+                 "transaction log's internal state (Arc/DashMap/atomics behind &self), multi-fault schedules, histories other than the enumerated one.",
+        "trusted": ["StorageManager::{begin,commit,rollback}_transaction, batch_set and the Azks methods are external; 'rollback was called' / 'commit returned Ok' are knowledge tokens that only those calls' postconditions hand out",
+                    "R-SEGMENT: the verified text is a suffix of the function body with its free variables as declared parameters; the statements before it are dropped",
+                    "Directory is a model struct with the fields the segment touches (storage, parallelism_config)"],
+        "assumed": ["`self.storage.batch_set(updates).await?` inside the open transaction cannot fail (it only appends to the transaction log: StorageManager::batch_set returns Ok before any database call when a transaction is active) - its error exit carries no rollback"],
     },
     "C16": {
         "verus": [("manager", [SM + "set", SM + "batch_set", SM + "commit_transaction", SM + "get", SM + "get_from_cache_only", SM + "batch_get", SM + "get_user_state",
@@ -140,6 +160,7 @@ PROPS = {
     },
     "C07": {
         "verus": ["verify_history", ("verify_base", BASE_VERIFY_FNS), ("markers", ["get_marker_versions", "lemma_l1", "lemma_history_pins_latest", "lemma_next_is_future_marker", "find_max_index_in_skiplist", "get_bit_length", "get_marker_version_log2"])],
+        "kani": ["c05", "c06"],
         "verus_thorough": ["node_label"],
         "search": True,
         "always_search": True,
@@ -153,18 +174,20 @@ PROPS = {
     },
     "C06": {
         "verus": ["verify_lookup", ("verify_base", BASE_VERIFY_FNS)],
+        "kani": ["c05", "c06"],
         "search": True,
         "always_search": True,
         "verus_thorough": ["node_label", "markers"],
         "scope": "verifier control-flow soundness: lookup_verify Ok ==> version <= epoch, the result triple equals the proof's fields, and the three sub-proofs "
                  "were accepted for exactly (Fresh, v) with the value/epoch commitment, (Fresh, 2^floor(log2 v)) and (Stale, v) non-membership under the same key/root/label. "
                  "What the honest tree contains (the histories quantifier) is not decided.",
-        "trusted": ["T4 ECVRF (ecvrf_impl.rs) as three opaque notions: parse, accept, truncated output; configuration hashes uninterpreted",
+        "trusted": ["T4 ECVRF (ecvrf_impl.rs) as three opaque notions: parse, accept, truncated output; configuration hashes are uninterpreted in the Verus units - what their pre-images contain (parent hash: both children's values and labels; value commitment: length-framed value and nonce, server and client side) is checked on the compiled encoders by BOUNDED Kani harnesses (groups c05, c06), the hash function itself (blake3) is trusted",
                     "meaning step (VRF uniqueness + collision resistance => 'tree contains / does not contain') is the standard argument, not machine-checked"],
         "assumed": [],
     },
     "C05": {
         "verus": [("verify_base", ["verify_membership", "verify_nonmembership", "NodeLabel.value", "NodeLabel.root", "NodeLabel.new"]), "trie_lemmas"],
+        "kani": ["c05"],
         "verus_thorough": ["node_label"],
         "search": True,
         "always_search": True,
